@@ -137,7 +137,7 @@ def gen_plan(rng, opts, spec, faults, idx):
         elif kind == 'npwarn':
             passes[kf - 1] = {'a': 'npwarn', 'j': j, 'op': rng.choice(['div0', 'log0', 'exp', 'invalid']), 'd': [0.0] * n_endo}
         elif kind == 'pywarn':
-            passes[kf - 1] = {'a': 'pywarn', 'when': rng.choice(['before', 'after']), 'd': passes[kf - 1].get('d', [0.0] * n_endo)}
+            passes[kf - 1] = {'a': 'pywarn', 'when': rng.choice(['before', 'after']), 'cat': rng.choice(['RuntimeWarning', 'UserWarning', 'FutureWarning', 'DeprecationWarning']), 'd': passes[kf - 1].get('d', [0.0] * n_endo)}
         elif kind == 'exception':
             passes[kf - 1] = {'a': 'raise', 'exc': rng.choice(sorted(probes.EXCEPTIONS)), 'partial': rng.randint(0, n_endo)}
         elif kind == 'hook-before-exc':
@@ -145,7 +145,7 @@ def gen_plan(rng, opts, spec, faults, idx):
         elif kind == 'hook-after-exc':
             plan['after'] = {'a': 'raise', 'exc': rng.choice(sorted(probes.EXCEPTIONS))}
         elif kind == 'hook-warn':
-            plan[rng.choice(['before', 'after'])] = {'a': 'pywarn'}
+            plan[rng.choice(['before', 'after'])] = {'a': 'pywarn', 'cat': rng.choice(['RuntimeWarning', 'UserWarning', 'FutureWarning'])}
         placed.append(kind)
     return plan, placed
 
